@@ -5,7 +5,14 @@
 //! and display text of every asset).  Protocol: DESIGN Appendix A.
 use crate::fnfam::GUARDED;
 use crate::rng::*;
-use crate::text::hex;
+/// lower-case hex of a string's bytes, prefixed with `h` (the line protocol's byte-string form)
+fn hex(s: &str) -> String {
+    let mut o = String::from("h");
+    for b in s.bytes() {
+        o.push_str(&format!("{:02x}", b));
+    }
+    o
+}
 use bignumber::Decimal256;
 use cosmwasm_std::testing::MockApi;
 use cosmwasm_std::{to_binary, Addr, Api, Coin, Decimal, Empty, Uint128};
@@ -346,6 +353,22 @@ impl<'a> Env<'a> {
         writeln!(self.w, "asset {a} raw=h{rawhex} name={}", hex(&name)).unwrap();
     }
 
+    /// a smart query that can neither abort the harness (a contract panic inside a query is caught) nor be mistaken
+    /// for a harness bug
+    pub fn q<T: serde::de::DeserializeOwned, M: serde::Serialize>(&self, addr: String, msg: &M) -> Result<T, String> {
+        let app_ptr: *const App = &self.app;
+        let prev = GUARDED.swap(true, Ordering::SeqCst);
+        let r = catch_unwind(AssertUnwindSafe(|| {
+            let app: &App = unsafe { &*app_ptr };
+            app.wrap().query_wasm_smart::<T>(addr, msg)
+        }));
+        GUARDED.store(prev, Ordering::SeqCst);
+        match r {
+            Ok(Ok(x)) => Ok(x),
+            Ok(Err(e)) => Err(e.to_string()),
+            Err(_) => Err("panic".into()),
+        }
+    }
     pub fn bal(&self, a: A, who: u64) -> u128 {
         match a {
             A::N(d) => self.app.wrap().query_balance(self.astr(who), self.denoms[d as usize].clone()).unwrap().amount.u128(),
@@ -353,13 +376,13 @@ impl<'a> Env<'a> {
                 // a query can fail on states only a defective implementation reaches (e.g. an unnormalised address
                 // recorded as a pair asset): observe 0 rather than abort the harness — the divergence is reported anyway
                 let r: Result<BalanceResponse, _> =
-                    self.app.wrap().query_wasm_smart(self.astr(t), &Cw20QueryMsg::Balance { address: self.astr(who) });
+                    self.q(self.astr(t), &Cw20QueryMsg::Balance { address: self.astr(who) });
                 r.map(|x| x.balance.u128()).unwrap_or(0)
             }
         }
     }
     pub fn supply(&self, t: u64) -> u128 {
-        let r: Result<TokenInfoResponse, _> = self.app.wrap().query_wasm_smart(self.astr(t), &Cw20QueryMsg::TokenInfo {});
+        let r: Result<TokenInfoResponse, _> = self.q(self.astr(t), &Cw20QueryMsg::TokenInfo {});
         r.map(|x| x.total_supply.u128()).unwrap_or(0)
     }
 
@@ -627,33 +650,31 @@ impl<'a> Env<'a> {
             }
         }
         for (t, owner, spender) in self.allow_watch.clone() {
-            let r: Result<cw20::AllowanceResponse, _> = self.app.wrap()
-                .query_wasm_smart(self.astr(t), &Cw20QueryMsg::Allowance { owner: self.astr(owner), spender: self.astr(spender) });
+            let r: Result<cw20::AllowanceResponse, _> = self.q(self.astr(t), &Cw20QueryMsg::Allowance { owner: self.astr(owner), spender: self.astr(spender) });
             self.put(format!("allow {t} {owner} {spender}"), match r { Ok(x) => x.allowance.to_string(), Err(_) => "err".into() });
         }
         for pm in self.pairs.clone().iter().take(8) {
-            let r: Result<cw20::TokenInfoResponse, _> = self.app.wrap().query_wasm_smart(self.astr(pm.lp), &Cw20QueryMsg::TokenInfo {});
+            let r: Result<cw20::TokenInfoResponse, _> = self.q(self.astr(pm.lp), &Cw20QueryMsg::TokenInfo {});
             self.put(format!("tdec {}", pm.lp), match r { Ok(x) => x.decimals.to_string(), Err(_) => "err".into() });
         }
-        let cfg: ConfigResponse = self.app.wrap().query_wasm_smart(self.astr(self.factory), &FacQuery::Config {}).unwrap();
+        let cfg: ConfigResponse = self.q(self.astr(self.factory), &FacQuery::Config {}).unwrap();
         let oid = self.aid(&cfg.owner);
         self.put("owner".into(), oid.to_string());
         self.put("codes".into(), format!("{} {}", cfg.pair_code_id, cfg.token_code_id));
         for d in 0..self.denoms.len() {
             let r: Result<NativeTokenDecimalsResponse, _> =
-                self.app.wrap().query_wasm_smart(self.astr(self.factory), &FacQuery::NativeTokenDecimals { denom: self.denoms[d].clone() });
+                self.q(self.astr(self.factory), &FacQuery::NativeTokenDecimals { denom: self.denoms[d].clone() });
             self.put(format!("denom {d}"), match r { Ok(x) => x.decimals.to_string(), Err(_) => "-".into() });
         }
         for pm in self.pairs.clone() {
-            let pi: Result<PairInfo, _> = self.app.wrap().query_wasm_smart(self.astr(pm.addr), &PairQuery::Pair {});
+            let pi: Result<PairInfo, _> = self.q(self.astr(pm.addr), &PairQuery::Pair {});
             let s = match &pi { Ok(pi) => self.pair_info_str(pi), Err(_) => "err".into() };
             self.put(format!("pair {}", pm.addr), s);
-            let pool: Result<PoolResponse, _> = self.app.wrap().query_wasm_smart(self.astr(pm.addr), &PairQuery::Pool {});
+            let pool: Result<PoolResponse, _> = self.q(self.astr(pm.addr), &PairQuery::Pool {});
             let ps = match pool { Ok(pool) => format!("{} {} {}", pool.assets[0].amount, pool.assets[1].amount, pool.total_share), Err(_) => "err".into() };
             self.put(format!("pool {}", pm.addr), ps);
             for (x, y) in [(pm.a0, pm.a1), (pm.a1, pm.a0)] {
-                let r: Result<PairInfo, _> = self.app.wrap()
-                    .query_wasm_smart(self.astr(self.factory), &FacQuery::Pair { asset_infos: [self.info(x), self.info(y)] });
+                let r: Result<PairInfo, _> = self.q(self.astr(self.factory), &FacQuery::Pair { asset_infos: [self.info(x), self.info(y)] });
                 let v = match r { Ok(pi) => self.pair_info_str(&pi), Err(_) => "none".into() };
                 self.put(format!("reg {x} {y}"), v);
             }
@@ -662,8 +683,7 @@ impl<'a> Env<'a> {
         let mut all: Vec<String> = vec![];
         let mut cursor: Option<[AssetInfo; 2]> = None;
         for _ in 0..100 {
-            let r: PairsResponse = match self.app.wrap()
-                .query_wasm_smart(self.astr(self.factory), &FacQuery::Pairs { start_after: cursor.clone(), limit: Some(30) }) {
+            let r: PairsResponse = match self.q(self.astr(self.factory), &FacQuery::Pairs { start_after: cursor.clone(), limit: Some(30) }) {
                 Ok(r) => r,
                 Err(_) => { all.push("err".into()); break; }
             };
@@ -750,13 +770,12 @@ impl<'a> Env<'a> {
         writeln!(self.w, "query seq={} {} {amt} {} => {s}", self.seq, if reverse { "rrevcomp" } else { "rsimcomp" }, ops_str(ops)).unwrap();
     }
     pub fn q_lookup(&mut self, a: A, b: A) {
-        let r: Result<PairInfo, _> = self.app.wrap()
-            .query_wasm_smart(self.astr(self.factory), &FacQuery::Pair { asset_infos: [self.info(a), self.info(b)] });
+        let r: Result<PairInfo, _> = self.q(self.astr(self.factory), &FacQuery::Pair { asset_infos: [self.info(a), self.info(b)] });
         let s = match r { Ok(pi) => self.pair_info_str(&pi), Err(_) => "none".into() };
         writeln!(self.w, "query seq={} lookup {a} {b} => ok {s}", self.seq).unwrap();
     }
     pub fn q_pairs(&mut self, start: Option<(A, A)>, limit: Option<u32>) {
-        let r: Result<PairsResponse, _> = self.app.wrap().query_wasm_smart(
+        let r: Result<PairsResponse, _> = self.q(
             self.astr(self.factory),
             &FacQuery::Pairs { start_after: start.map(|(a, b)| [self.info(a), self.info(b)]), limit },
         );
@@ -1133,7 +1152,7 @@ impl Gen {
                     // decimals), with a tolerance of the same order: the guard is exercised on both sides of its limit
                     6 => {
                         let ask = if offer == pm.a0 { pm.a1 } else { pm.a0 };
-                        let dec: Option<(u8, u8)> = e.app.wrap().query_wasm_smart::<PairInfo>(e.astr(pm.addr), &haloswap::pair::QueryMsg::Pair {}).ok()
+                        let dec: Option<(u8, u8)> = e.q::<PairInfo, _>(e.astr(pm.addr), &haloswap::pair::QueryMsg::Pair {}).ok()
                             .map(|pi| if offer == pm.a0 { (pi.asset_decimals[0], pi.asset_decimals[1]) } else { (pi.asset_decimals[1], pi.asset_decimals[0]) });
                         match (self.sim_route(e, amt, &[(offer, ask)]), dec) {
                             (Some(ret), Some((od, rd))) if ret > 0 && amt > 0 && od <= 24 && rd <= 24 => {
@@ -1451,7 +1470,7 @@ impl Gen {
             },
             "factory" => {
                 // current owner as the implementation reports it
-                let cfg: ConfigResponse = e.app.wrap().query_wasm_smart(e.astr(e.factory), &FacQuery::Config {}).unwrap();
+                let cfg: ConfigResponse = e.q(e.astr(e.factory), &FacQuery::Config {}).unwrap();
                 let owner = e.aid(&cfg.owner);
                 let s = if r.chance(5, 6) { owner } else { u };
                 match r.below(10) {
